@@ -754,6 +754,38 @@ struct QExpression {
         }
     }
 
+    // Whole numbers are compared as what they are: a natural above 2^63 is not a negative integer.
+    static int compareWhole(const QExpression &left, const QExpression &right) noexcept {
+        const bool left_natural  = (left.Type == ExpressionType::NaturalNumber);
+        const bool right_natural = (right.Type == ExpressionType::NaturalNumber);
+
+        if (left_natural != right_natural) {
+            if (left_natural) {
+                if (right.Value.Number.Integer < 0) {
+                    return 1;
+                }
+            } else if (left.Value.Number.Integer < 0) {
+                return -1;
+            }
+        }
+
+        if (left_natural || right_natural) {
+            // Neither is negative.
+            return ((left.Value.Number.Natural < right.Value.Number.Natural)
+                        ? -1
+                        : int(left.Value.Number.Natural > right.Value.Number.Natural));
+        }
+
+        return ((left.Value.Number.Integer < right.Value.Number.Integer)
+                    ? -1
+                    : int(left.Value.Number.Integer > right.Value.Number.Integer));
+    }
+
+    static double realOf(const QExpression &expr) noexcept {
+        return ((expr.Type == ExpressionType::NaturalNumber) ? double(expr.Value.Number.Natural)
+                                                             : double(expr.Value.Number.Integer));
+    }
+
     template <typename Number_T>
     bool operator>(const Number_T number) const noexcept {
         switch (Type) {
@@ -778,7 +810,7 @@ struct QExpression {
                     return (double(Value.Number.Natural) >= right.Value.Number.Real);
                 }
 
-                return (Value.Number.Integer >= right.Value.Number.Integer);
+                return (compareWhole(*this, right) >= 0);
             }
 
             case ExpressionType::IntegerNumber: {
@@ -786,12 +818,12 @@ struct QExpression {
                     return (double(Value.Number.Integer) >= right.Value.Number.Real);
                 }
 
-                return (Value.Number.Integer >= right.Value.Number.Integer);
+                return (compareWhole(*this, right) >= 0);
             }
 
             case ExpressionType::RealNumber: {
                 if (right.Type != ExpressionType::RealNumber) {
-                    return (Value.Number.Real >= double(right.Value.Number.Integer));
+                    return (Value.Number.Real >= realOf(right));
                 }
             }
 
@@ -809,7 +841,7 @@ struct QExpression {
                     return (double(Value.Number.Natural) > right.Value.Number.Real);
                 }
 
-                return (Value.Number.Integer > right.Value.Number.Integer);
+                return (compareWhole(*this, right) > 0);
             }
 
             case ExpressionType::IntegerNumber: {
@@ -817,12 +849,12 @@ struct QExpression {
                     return (double(Value.Number.Integer) > right.Value.Number.Real);
                 }
 
-                return (Value.Number.Integer > right.Value.Number.Integer);
+                return (compareWhole(*this, right) > 0);
             }
 
             case ExpressionType::RealNumber: {
                 if (right.Type != ExpressionType::RealNumber) {
-                    return (Value.Number.Real > double(right.Value.Number.Integer));
+                    return (Value.Number.Real > realOf(right));
                 }
             }
 
@@ -840,7 +872,7 @@ struct QExpression {
                     return (double(Value.Number.Natural) <= right.Value.Number.Real);
                 }
 
-                return (Value.Number.Integer <= right.Value.Number.Integer);
+                return (compareWhole(*this, right) <= 0);
             }
 
             case ExpressionType::IntegerNumber: {
@@ -848,12 +880,12 @@ struct QExpression {
                     return (double(Value.Number.Integer) <= right.Value.Number.Real);
                 }
 
-                return (Value.Number.Integer <= right.Value.Number.Integer);
+                return (compareWhole(*this, right) <= 0);
             }
 
             case ExpressionType::RealNumber: {
                 if (right.Type != ExpressionType::RealNumber) {
-                    return (Value.Number.Real <= double(right.Value.Number.Integer));
+                    return (Value.Number.Real <= realOf(right));
                 }
             }
 
@@ -871,7 +903,7 @@ struct QExpression {
                     return (double(Value.Number.Natural) < right.Value.Number.Real);
                 }
 
-                return (Value.Number.Integer < right.Value.Number.Integer);
+                return (compareWhole(*this, right) < 0);
             }
 
             case ExpressionType::IntegerNumber: {
@@ -879,12 +911,12 @@ struct QExpression {
                     return (double(Value.Number.Integer) < right.Value.Number.Real);
                 }
 
-                return (Value.Number.Integer < right.Value.Number.Integer);
+                return (compareWhole(*this, right) < 0);
             }
 
             case ExpressionType::RealNumber: {
                 if (right.Type != ExpressionType::RealNumber) {
-                    return (Value.Number.Real < double(right.Value.Number.Integer));
+                    return (Value.Number.Real < realOf(right));
                 }
             }
 
@@ -902,7 +934,7 @@ struct QExpression {
                     return (double(Value.Number.Natural) == right.Value.Number.Real);
                 }
 
-                return (Value.Number.Integer == right.Value.Number.Integer);
+                return (compareWhole(*this, right) == 0);
             }
 
             case ExpressionType::IntegerNumber: {
@@ -910,12 +942,12 @@ struct QExpression {
                     return (double(Value.Number.Integer) == right.Value.Number.Real);
                 }
 
-                return (Value.Number.Integer == right.Value.Number.Integer);
+                return (compareWhole(*this, right) == 0);
             }
 
             case ExpressionType::RealNumber: {
                 if (right.Type != ExpressionType::RealNumber) {
-                    return (Value.Number.Real == double(right.Value.Number.Integer));
+                    return (Value.Number.Real == realOf(right));
                 }
             }
 
